@@ -8,7 +8,24 @@
     are inputs; the Go map orders are read off the real run.
 
     [model_agrees] replays the history through Model/Reservation.v and compares
-    every step.  [monitor_ok] evaluates the property on the observed stores only. *)
+    every step.  [monitor_ok] evaluates the property on the observed stores only.
+
+    RACES.  A case may end with a controlled interleaving of two operations A
+    and B of the real code (the raw service calls ReserveGpuDevice and
+    SyncForGpuGroup, or any event: Binder.Bind + Rollback, the pod handlers,
+    the BindRequest delete handler, SyncForNode), started from the state the
+    history reached: one of them was parked just before its k-th API call, the
+    other one was started and ran until it finished or blocked on a lock, then
+    the first one was released and both ran to completion.  The model has no
+    interleavings -- every critical section of a group is one atomic piece of
+    it.  That is sound only if the real sections are atomic, so the oracle is
+    LINEARIZABILITY: the observed outcomes and final store must be what the
+    model gives for A;B or for B;A from the same pre-state (reservation pod
+    identities, which are creation order, are canonicalised away) -- required
+    when both operations are single critical sections ([strict]; operations
+    made of several sections interleave legitimately between their sections).
+    The property clauses are evaluated on the real final store on their own
+    ([race_ok]), for every interleaving. *)
 From KaiV Require Export Run.Prelude Model.Reservation.
 
 Record obs := mkObs {
@@ -17,11 +34,42 @@ Record obs := mkObs {
   o_store : list pod        (* consumers in name order, then reservation pods in creation order *)
 }.
 
+(** ** operations of a race *)
+Inductive rop :=
+| RReserve (c : pid) (n : node) (g : group)   (* service.ReserveGpuDevice(pod c, node n, group g) *)
+| RSyncGroup (g : group)                      (* service.SyncForGpuGroup(g) *)
+| REvent (e : event).                         (* as in a history (no restart / outside deletion in races) *)
+
+Record rstep := mkRStep {
+  r_op : rop;
+  r_fl : faults;
+  r_ord : list (list group);
+  r_dp : list (option gidx)
+}.
+
+Definition rout := (nat * option gidx)%type.   (* 0 ok / 1 error / 2 crash / 3 hang (never the model's), index returned by ReserveGpuDevice *)
+
+Record race := mkRace {
+  ra_a : rstep;
+  ra_b : rstep;
+  ra_first_a : bool;              (* the schedule: A was parked and B injected (false: the symmetric schedule) *)
+  ra_k : nat;                     (* ... before its k-th API call *)
+  ra_parked : bool;               (* the parked operation did reach call k (false: it makes fewer calls; the run was sequential) *)
+  ra_blocked : bool;              (* the injected operation blocked on a lock until the parked one went on *)
+  ra_out_a : rout;
+  ra_out_b : rout;
+  ra_calls_a : list call;         (* calls of A, in the order it issued them *)
+  ra_calls_b : list call;
+  ra_trace : list (bool * call);  (* all calls in the order the API server saw them; true: A's (replay information) *)
+  ra_store : list pod             (* final store *)
+}.
+
 Record case := mkCase {
   k_pods : list (pid * mfkind);
   k_steps : list (step * obs);
   k_smoke : list (list pod);   (* final stores of runs with real concurrent reconciles (validation only) *)
-  k_race_free : bool           (* concurrent runs: no call failed, and the race detector (when used) stayed silent *)
+  k_race_free : bool;          (* concurrent runs: no call failed, and the race detector (when used) stayed silent *)
+  k_race : option race         (* a controlled interleaving of two operations after the history *)
 }.
 
 (** ** equality on observables *)
@@ -63,13 +111,135 @@ Definition step_agrees (s : pstate) (st : step) (o : obs) : bool * pstate :=
    && (match r, w_pend w with Ok _, _ :: _ => false | _, _ => true end),
    persist w).
 
-Fixpoint steps_agree (s : pstate) (l : list (step * obs)) : bool :=
+Fixpoint steps_run (s : pstate) (l : list (step * obs)) : bool * pstate :=
   match l with
-  | [] => true
-  | (st, o) :: r => let (b, s') := step_agrees s st o in b && steps_agree s' r
+  | [] => (true, s)
+  | (st, o) :: r => let (b, s') := step_agrees s st o in
+                    let (b', s'') := steps_run s' r in (b && b', s'')
   end.
 
-Definition model_agrees (k : case) : bool := steps_agree (init_state (k_pods k)) (k_steps k).
+(** ** races: the sequential model of one operation, and linearizability *)
+Definition rop_prog (o : rop) : M (option gidx) :=
+  match o with
+  | RReserve c n g =>
+      fun w => match find_consumer c (w_store w) with
+               | None => (Ok None, w)
+               | Some p => match p_node p with
+                           | Some _ => (Ok None, w)      (* bound already: the reconciler does not get this far *)
+                           | None => (i <- reserve c n g ;; ret (Some i)) (set_mem (Some p) w)
+                           end
+               end
+  | RSyncGroup g => sync_group g ;;; ret None
+  | REvent e => run_event e ;;; ret None
+  end.
+
+(** the operation, then the delivery of the watch events it caused (as [exec_world]) *)
+Definition exec_rop (st : rstep) (s : pstate) : out (option gidx) * world :=
+  let fuel := S (List.length (ps_store s)) in
+  (r <- try (rop_prog (r_op st)) ;;
+   match r with
+   | Some v => drain fuel ;;; ret v
+   | None => drain fuel ;;; fail
+   end) (mkW (ps_store s) (ps_next s) (ps_brs s) 0 [] (r_fl st) (r_ord st) (r_dp st) None []).
+
+Definition rcode (r : out (option gidx)) : rout :=
+  match r with Ok v => (0, v) | Err => (1, None) | Crash => (2, None) end.
+Definition rout_eqb (a b : rout) : bool := Nat.eqb (fst a) (fst b) && opos_eqb (snd a) (snd b).
+
+(** canonical form of a store: consumers as they are; reservation pods without
+    their identity (creation order -- it depends on who came first), sorted by
+    (group, index, node) *)
+Definition ocmp (a b : option positive) : comparison :=
+  match a, b with
+  | None, None => Eq
+  | None, Some _ => Lt
+  | Some _, None => Gt
+  | Some x, Some y => Pos.compare x y
+  end.
+Definition res_leb (a b : pod) : bool :=
+  match ocmp (p_plain a) (p_plain b) with
+  | Lt => true
+  | Gt => false
+  | Eq => match ocmp (p_index a) (p_index b) with
+          | Lt => true
+          | Gt => false
+          | Eq => match ocmp (p_node a) (p_node b) with Gt => false | _ => true end
+          end
+  end.
+Fixpoint ins_res (p : pod) (l : list pod) : list pod :=
+  match l with
+  | [] => [p]
+  | q :: r => if res_leb p q then p :: l else q :: ins_res p r
+  end.
+Definition clear_id (p : pod) : pod :=
+  mkPod 1%positive (p_res p) (p_node p) (p_plain p) (p_multi p) (p_phase p) (p_index p) (p_mf p) (p_given p).
+Definition canon (s : list pod) : list pod :=
+  filter (fun p => negb (p_res p)) s
+  ++ fold_right ins_res [] (map clear_id (filter p_res s)).
+
+(** x, then y, from state s: outcomes, call logs, final store *)
+Definition seq2 (x y : rstep) (s : pstate) : (rout * list call) * (rout * list call) * list pod :=
+  let (rx, wx) := exec_rop x s in
+  let (ry, wy) := exec_rop y (persist wx) in
+  ((rcode rx, rev (w_log wx)), (rcode ry, rev (w_log wy)), w_store wy).
+
+Definition lin_ab (calls : bool) (s : pstate) (r : race) : bool :=
+  let '((oa, ca), (ob, cb), st) := seq2 (ra_a r) (ra_b r) s in
+  rout_eqb oa (ra_out_a r) && rout_eqb ob (ra_out_b r)
+  && list_eqb pod_eqb (canon st) (canon (ra_store r))
+  && (negb calls || (list_eqb call_eqb ca (ra_calls_a r) && list_eqb call_eqb cb (ra_calls_b r))).
+Definition lin_ba (calls : bool) (s : pstate) (r : race) : bool :=
+  let '((ob, cb), (oa, ca), st) := seq2 (ra_b r) (ra_a r) s in
+  rout_eqb oa (ra_out_a r) && rout_eqb ob (ra_out_b r)
+  && list_eqb pod_eqb (canon st) (canon (ra_store r))
+  && (negb calls || (list_eqb call_eqb ca (ra_calls_a r) && list_eqb call_eqb cb (ra_calls_b r))).
+
+(** How many critical sections (plus separate environment actions) an
+    operation consists of in state s.  ReserveGpuDevice and SyncForGpuGroup are
+    one section each.  A handler runs one section per group of its pod /
+    BindRequest, SyncForNode one per group found on the node, Binder.Bind is
+    SyncForNode + one section per selected group + the patches: between two of
+    its sections the other operation may run, and then the result need not be
+    that of either sequential order -- whole-operation linearizability is a
+    property of the code only for operations of at most one section. *)
+Definition br_groups (c : pid) (s : pstate) : list group :=
+  match br_get c (ps_brs s) with Some gs => gs | None => [] end.
+Definition sections (o : rop) (s : pstate) : nat :=
+  match o with
+  | RReserve _ _ _ => 1
+  | RSyncGroup _ => 1
+  | REvent (EvPhase c ph) =>
+      match find_consumer c (ps_store s) with
+      | Some p => if completed ph then List.length (get_gpu_groups p) else 0
+      | None => 0
+      end
+  | REvent (EvDelete c) =>
+      match find_consumer c (ps_store s) with
+      | Some p => List.length (get_gpu_groups p) + List.length (br_groups c s)
+      | None => 0
+      end
+  | REvent (EvBRDelete c) => List.length (br_groups c s)
+  | REvent (EvNodeSync n) =>
+      List.length (dedup (flat_map get_gpu_groups (filter (fun p => labelled p && on_node n p) (ps_store s))))
+  | REvent _ => 2
+  end.
+Definition single_section (x y : rstep) (s : pstate) : bool :=
+  Nat.leb (sections (r_op x) s) 1
+  && Nat.leb (sections (r_op x) (persist (snd (exec_rop y s)))) 1.
+Definition strict (s : pstate) (r : race) : bool :=
+  single_section (ra_a r) (ra_b r) s && single_section (ra_b r) (ra_a r) s.
+
+(** A schedule whose parked operation never reached call k was the sequential
+    run "first ; second": it must agree with that order, API calls included.
+    A real interleaving of two single-section operations must be linearizable:
+    one of the two orders.  (Other interleavings: the monitor, and flag 104.) *)
+Definition race_agrees (s : pstate) (r : race) : bool :=
+  if ra_parked r then negb (strict s r) || lin_ab false s r || lin_ba false s r
+  else if ra_first_a r then lin_ab true s r else lin_ba true s r.
+
+Definition model_agrees (k : case) : bool :=
+  let (b, s) := steps_run (init_state (k_pods k)) (k_steps k) in
+  b && match k_race k with Some r => race_agrees s r | None => true end.
 
 (** ** the property on observed stores *)
 Definition consumers (s : list pod) : list pod := filter (fun p => negb (p_res p)) s.
@@ -152,9 +322,58 @@ Fixpoint monitor_steps (pre : list pod) (tampered : bool) (l : list (step * obs)
 Definition smoke_ok (s : list pod) : bool :=
   amo_b s && index_b s && orphan_free_b s && forallb (exact_b s) (all_groups s).
 
+(** the clauses on the final store of a race (the history before it is tamper
+    free): at most one reservation pod per group; every group a live pod carries
+    has a reservation pod (so no running pod is orphaned); the indices handed out
+    -- to the plugins, or returned by ReserveGpuDevice -- are those annotated on
+    the groups' reservation pods *)
+Definition live_reserved_b (s : list pod) : bool :=
+  forallb (fun p =>
+             if negb (p_res p) && live_phase (p_phase p)
+             then forallb (has_res_b s) (get_gpu_groups p)
+             else true) s.
+Definition reserve_answer_b (s : list pod) (st : rstep) (o : rout) : bool :=
+  match r_op st, o with
+  | RReserve c _ g, (0, Some i) =>
+      match find_consumer c s with
+      | Some p => if live_phase (p_phase p) && carries_b g p
+                  then existsb (fun r => opos_eqb (p_index r) (Some i)) (res_of g s)
+                  else true
+      | None => true
+      end
+  | _, _ => true
+  end.
+Definition race_ok (r : race) : bool :=
+  let s := ra_store r in
+  amo_b s && live_reserved_b s && orphan_free_b s && index_b s
+  && reserve_answer_b s (ra_a r) (ra_out_a r) && reserve_answer_b s (ra_b r) (ra_out_b r).
+
 Definition monitor_ok (k : case) : bool :=
   monitor_steps (ps_store (init_state (k_pods k))) false (k_steps k)
-  && forallb smoke_ok (k_smoke k) && k_race_free k.
+  && forallb smoke_ok (k_smoke k) && k_race_free k
+  && match k_race k with Some r => race_ok r | None => true end.
+
+(** observation flags (counted in the evidence, never an alarm): which
+    sequential order(s) a real interleaving is equal to (101 A;B only, 102 B;A
+    only, 103 both, 104 neither -- an alarm through [model_agrees] when both
+    operations are single sections, which is flag 105) *)
+Definition race_flags (k : case) : list nat :=
+  match k_race k with
+  | Some r =>
+      if ra_parked r then
+        let s := snd (steps_run (init_state (k_pods k)) (k_steps k)) in
+        match lin_ab false s r, lin_ba false s r with
+        | true, true => [103]
+        | true, false => [101]
+        | false, true => [102]
+        | false, false => [104]
+        end ++ (if strict s r then [105] else [])
+      else []
+  | None => []
+  end.
+Definition run_flags (cs : list (nat * case)) : list (nat * list nat) :=
+  filter (fun x => match snd x with [] => false | _ => true end)
+         (map (fun x => (fst x, race_flags (snd x))) cs).
 
 Definition run_mismatches (cs : list (nat * case)) : list nat := failing (fun k => negb (model_agrees k)) cs.
 Definition run_monitor (cs : list (nat * case)) : list nat := failing (fun k => negb (monitor_ok k)) cs.
